@@ -1005,3 +1005,154 @@ Proof.
     destruct (_ && _); [discriminate|]. destruct (_ && _); discriminate. }
   destruct st; [| |congruence]; rewrite Hs; cbn [py_index]; rewrite py_nth_2; reflexivity.
 Qed.
+
+(* ------------------------------------------------------------ the IMRO scanner *)
+Lemma span_digits_app ds r :
+  digits ds = true -> (match r with c :: _ => is_digit c = false | [] => True end) ->
+  span_digits (ds ++ r) = (ds, r).
+Proof.
+  induction ds as [|x ds IH]; cbn [app]; intros Hd Hr.
+  - destruct r as [|c r]; [reflexivity|]. cbn [span_digits]. now rewrite Hr.
+  - unfold digits in Hd. cbn [forallb] in Hd. apply andb_true_iff in Hd as [Hx Hd].
+    cbn [span_digits]. rewrite Hx, (IH Hd Hr). reflexivity.
+Qed.
+
+Lemma span_digits_length s a r : span_digits s = (a, r) -> length s = (length a + length r)%nat.
+Proof.
+  revert a r. induction s as [|c s IH]; cbn [span_digits]; intros a r.
+  - intros [= <- <-]. reflexivity.
+  - destruct (is_digit c).
+    + destruct (span_digits s) as [a0 b0]. intros [= <- <-]. cbn [length]. now rewrite (IH a0 b0 eq_refl).
+    + intros [= <- <-]. reflexivity.
+Qed.
+
+Lemma match_runs_shorter k s l rest :
+  match_runs k s = Some (l, rest) -> (length rest + k <= length s)%nat.
+Proof.
+  revert s l rest. induction k as [|k IH]; intros s l rest; cbn [match_runs];
+    destruct (span_digits s) as [a r] eqn:E; apply span_digits_length in E.
+  - intros [= <- <-]. lia.
+  - destruct r as [|c r']; [discriminate|]. destruct (c =? 32); [|discriminate].
+    destruct (match_runs k r') as [[l0 rest0]|] eqn:E2; [|discriminate]. intros [= <- <-].
+    apply IH in E2. cbn [length] in E. lia.
+Qed.
+
+Lemma scan_fuel n : forall s f1 f2, (length s <= n)%nat -> (n <= f1)%nat -> (n <= f2)%nat ->
+  scan f1 s = scan f2 s.
+Proof.
+  induction n as [|n IH]; intros s f1 f2 Hs H1 H2.
+  - destruct s; [|cbn in Hs; lia]. destruct f1, f2; reflexivity.
+  - destruct s as [|x r]; [destruct f1, f2; reflexivity|].
+    destruct f1 as [|f1]; [lia|]. destruct f2 as [|f2]; [lia|]. cbn [scan].
+    destruct (match_runs 4 (x :: r)) as [[l rest]|] eqn:E.
+    + apply match_runs_shorter in E. f_equal. apply IH; lia.
+    + apply IH; cbn [length] in Hs; lia.
+Qed.
+
+Lemma imro_scan_nil : imro_scan [] = [].
+Proof. reflexivity. Qed.
+Lemma imro_scan_cons x r :
+  imro_scan (x :: r) = match match_runs 4 (x :: r) with
+                       | Some (l, rest) => l :: imro_scan rest
+                       | None => imro_scan r
+                       end.
+Proof.
+  unfold imro_scan. cbn [length scan].
+  destruct (match_runs 4 (x :: r)) as [[l rest]|] eqn:E.
+  - f_equal. apply match_runs_shorter in E. apply (scan_fuel (length rest)); cbn [length] in E; lia.
+  - reflexivity.
+Qed.
+
+Definition sepch (c : Z) : Prop := is_digit c = false /\ c <> 32.
+
+Lemma match_fail_run k ds c r : digits ds = true -> sepch c -> match_runs (S k) (ds ++ c :: r) = None.
+Proof.
+  intros Hd [Hc1 Hc2]. cbn [match_runs]. rewrite span_digits_app by assumption.
+  apply Z.eqb_neq in Hc2. now rewrite Hc2.
+Qed.
+
+(* a digit run followed by a separator other than a blank yields no match *)
+Lemma scan_skip_run ds c r : digits ds = true -> sepch c ->
+  imro_scan (ds ++ c :: r) = imro_scan r.
+Proof.
+  intros Hd Hc. induction ds as [|x ds IH].
+  - cbn [app]. rewrite imro_scan_cons. pose proof (match_fail_run 3 [] c r eq_refl Hc) as E.
+    cbn [app] in E. now rewrite E.
+  - cbn [app]. rewrite imro_scan_cons. change (x :: ds ++ c :: r) with ((x :: ds) ++ c :: r).
+    rewrite (match_fail_run 3 (x :: ds) c r Hd Hc). apply IH.
+    unfold digits in *. cbn [forallb] in Hd. now apply andb_true_iff in Hd as [_ Hd].
+Qed.
+
+Lemma scan_skip_sep c r : sepch c -> imro_scan (c :: r) = imro_scan r.
+Proof. intros Hc. apply (scan_skip_run [] c r eq_refl Hc). Qed.
+
+(* one IMRO entry: five digit runs separated by single blanks, optionally a sixth *)
+Definition blank_join (rs : list str) : str := join [32] rs.
+
+Lemma match_five d1 d2 d3 d4 d5 r :
+  digits d1 = true -> digits d2 = true -> digits d3 = true -> digits d4 = true -> digits d5 = true ->
+  (match r with c :: _ => is_digit c = false | [] => True end) ->
+  match_runs 4 (d1 ++ 32 :: d2 ++ 32 :: d3 ++ 32 :: d4 ++ 32 :: d5 ++ r) = Some ([d1; d2; d3; d4; d5], r).
+Proof.
+  intros H1 H2 H3 H4 H5 Hr.
+  cbn [match_runs]. rewrite (span_digits_app d1) by (auto; reflexivity). change (32 =? 32) with true. cbv iota.
+  rewrite (span_digits_app d2) by (auto; reflexivity). change (32 =? 32) with true. cbv iota.
+  rewrite (span_digits_app d3) by (auto; reflexivity). change (32 =? 32) with true. cbv iota.
+  rewrite (span_digits_app d4) by (auto; reflexivity). change (32 =? 32) with true. cbv iota.
+  rewrite (span_digits_app d5) by auto. reflexivity.
+Qed.
+
+(* text of one entry: "(" f1 " " f2 " " f3 " " f4 " " f5 [" " f6] ")" *)
+Definition entry_text (e : Z * Z * Z * Z * Z * option Z) : str :=
+  let '(a, b, c, g1, g2, o) := e in
+  40 :: print_nat a ++ 32 :: print_nat b ++ 32 :: print_nat c ++ 32 :: print_nat g1 ++ 32 ::
+        print_nat g2 ++ match o with Some f => 32 :: print_nat f ++ [41] | None => [41] end.
+Definition entry_runs (e : Z * Z * Z * Z * Z * option Z) : list str :=
+  let '(a, b, c, g1, g2, _) := e in [print_nat a; print_nat b; print_nat c; print_nat g1; print_nat g2].
+(* header: "(" h1 "," h2 ... ")" *)
+Definition header_text (h : list Z) : str := 40 :: join [44] (map print_nat h) ++ [41].
+Definition imro_text (h : list Z) (es : list (Z * Z * Z * Z * Z * option Z)) : str :=
+  header_text h ++ concat (map entry_text es).
+
+Lemma scan_open r : imro_scan (40 :: r) = imro_scan r.
+Proof. apply scan_skip_sep. split; [reflexivity|discriminate]. Qed.
+
+Lemma imro_scan_match s l rest :
+  s <> [] -> match_runs 4 s = Some (l, rest) -> imro_scan s = l :: imro_scan rest.
+Proof. destruct s; [congruence|]. intros _ E. now rewrite imro_scan_cons, E. Qed.
+
+Lemma scan_entries es : imro_scan (concat (map entry_text es)) = map entry_runs es.
+Proof.
+  induction es as [|[[[[[a b] c] g1] g2] o] es IH]; [reflexivity|].
+  cbn [map concat entry_text entry_runs].
+  set (R := concat (map entry_text es)) in *.
+  cbn [app]. rewrite scan_open. repeat (rewrite <- app_assoc; cbn [app]).
+  rewrite (imro_scan_match _ [print_nat a; print_nat b; print_nat c; print_nat g1; print_nat g2]
+             (match o with Some f => 32 :: print_nat f ++ [41] | None => [41] end ++ R)).
+  - f_equal. destruct o as [f|].
+    + (* the sixth field: the attempt at the blank fails, then the run is skipped *)
+      cbn [app]. rewrite <- app_assoc. cbn [app].
+      rewrite imro_scan_cons. cbn [match_runs span_digits]. change (is_digit 32) with false. cbv iota.
+      change (32 =? 32) with true. cbv iota.
+      rewrite (match_fail_run 2 (print_nat f) 41 R (print_nat_digits f)) by (split; [reflexivity|discriminate]).
+      rewrite scan_skip_run; [exact IH|apply print_nat_digits|split; [reflexivity|discriminate]].
+    + cbn [app]. rewrite scan_skip_sep by (split; [reflexivity|discriminate]). exact IH.
+  - pose proof (print_nat_nonempty a). destruct (print_nat a); [congruence|discriminate].
+  - apply match_five; try apply print_nat_digits. destruct o; reflexivity.
+Qed.
+
+Lemma scan_header h r : imro_scan (header_text h ++ r) = imro_scan r.
+Proof.
+  unfold header_text. cbn [app]. rewrite scan_open. rewrite <- app_assoc. cbn [app].
+  induction h as [|z h IH]; cbn [map join].
+  - cbn [app]. apply scan_skip_sep. split; [reflexivity|discriminate].
+  - destruct h as [|z2 h].
+    + cbn [map join]. apply scan_skip_run; [apply print_nat_digits|split; [reflexivity|discriminate]].
+    + change (join [44] (print_nat z :: map print_nat (z2 :: h)))
+        with (print_nat z ++ [44] ++ join [44] (map print_nat (z2 :: h))).
+      rewrite <- !app_assoc. cbn [app].
+      rewrite scan_skip_run; [exact IH|apply print_nat_digits|split; [reflexivity|discriminate]].
+Qed.
+
+Lemma imro_scan_text h es : imro_scan (imro_text h es) = map entry_runs es.
+Proof. unfold imro_text. rewrite scan_header. apply scan_entries. Qed.
